@@ -16,12 +16,12 @@ TECHNIQUE = ("Coq theorems (induction over the slot list for each of the three e
 LEVEL_TEXT = ("Partial. Unbounded proof: for every slot list (entry present at an offset, or absent), any start index and any "
               "following bytes, the dense 32-bit, the 16-bit and the sparse offset arrays are read back as exactly the "
               "existing entries with their own resource ids; a plain and a compact entry record at any position of any file "
-              "are read back with their key, data type and data; the string pools are read back exactly (theorem of C26); "
+              "are read back with their key, data type and data, a complex entry with its parent and exactly its items; the string pools are read back exactly (theorem of C26); "
               "the walk over the table (table header, main pool, several packages - also of one name -, package header "
               "and its two pools, type specs, types, library and unknown chunks, the package-count check) is modelled "
               "(coq/Axml/ArscTableModel.v), compared with the code on every run and proved to end on every input (C35), "
               "but that it delivers exactly the encoded packages and type chunks is not a theorem. Not proved either: "
-              "complex entries and the listings (locales, types, key-to-id, resolved values) - they are compared with the "
+              "the listings (locales, types, key-to-id, resolved values) - they are compared with the "
               "generated table description on every run; reference resolution is C29, locale qualifiers are C30.")
 LEVEL_NOTE = ("Trusted: Coq kernel; coq/Axml/ArscTypeModel.v as a rendering of the type-chunk branch of ARSCParser.__init__ "
               "(the offset array is read at chunk start + header size, where ARSCResTableConfig leaves the stream on "
